@@ -116,6 +116,91 @@ fn prop_valid(t: &mut Tape, st: &mut Stats) -> Result<(), Failure> {
     }
 }
 
+/// documents nested below the limit, however the nesting is composed (arrays, inline tables, dotted
+/// keys inside and outside them, header paths): valid, so they must be accepted by every front end.
+/// The reference classes cumulative nesting from 64 up as L; everything generated here stays below.
+fn nesting_spec(t: &mut Tape) -> super::c05::Spec {
+    use super::c05::{Level, Spec};
+    let budget = match t.weighted(&[1, 3, 3]) {
+        0 => 1 + t.below(20),
+        1 => 20 + t.below(30),
+        _ => 50 + t.below(14),
+    };
+    let header = if t.chance(1, 3) { 1 + t.below(63) } else { 0 };
+    let aot = t.chance(1, 3);
+    let mut used = 0usize;
+    let key = if t.chance(1, 3) { 1 + t.below(budget.min(30)) } else { 1 };
+    used += key - 1;
+    let mut levels = vec![];
+    let mode = t.below(4);
+    while used < budget {
+        let lv = match mode {
+            0 => Level::Array,
+            1 => Level::Inline { key: 1 },
+            2 => {
+                if levels.len() % 2 == 0 {
+                    Level::Array
+                } else {
+                    Level::Inline { key: 1 }
+                }
+            }
+            _ => match t.weighted(&[3, 3, 2]) {
+                0 => Level::Array,
+                1 => Level::Inline { key: 1 },
+                _ => Level::Inline { key: 2 + t.below(4) },
+            },
+        };
+        let cost = match &lv {
+            Level::Array => 1,
+            Level::Inline { key } => *key,
+        };
+        if used + cost > budget {
+            break;
+        }
+        used += cost;
+        levels.push(lv);
+    }
+    Spec { header, aot, key, levels }
+}
+
+fn prop_nesting(t: &mut Tape, st: &mut Stats) -> Result<(), Failure> {
+    let sp = nesting_spec(t);
+    let mut text = String::new();
+    // shallow siblings first: nesting that was left must not count any more
+    if t.chance(1, 2) {
+        const UNITS: [&str; 10] = ["[]", "{}", "[ ]", "[[]]", "[{}]", "{a={}}", "{a.b=1}", "[1,[2]]", "{ }", "[\n]"];
+        let n = match t.below(3) {
+            0 => t.below(20),
+            1 => 60 + t.below(40),
+            _ => 100 + t.below(200),
+        };
+        let u = *t.pick(&UNITS);
+        let mixed = t.chance(1, 3);
+        for i in 0..n {
+            let u = if mixed { *t.pick(&UNITS) } else { u };
+            text.push_str(&format!("p{i} = {u}\n"));
+        }
+        if n >= 60 {
+            st.class("nesting.after>=60-siblings");
+        }
+    }
+    // the nested part goes last only if it has no header (a header would capture what follows)
+    text.push_str(&sp.text());
+    st.eval();
+    let cl = differential(&text, "nesting")?;
+    st.class(&format!("nesting.{cl}"));
+    let depth = sp.key - 1 + sp.levels.iter().map(|l| match l { super::c05::Level::Array => 1, super::c05::Level::Inline { key } => *key }).sum::<usize>();
+    if depth >= 40 && cl == "valid-accepted" {
+        st.class("nesting.accepted-depth>=40");
+        st.nontrivial(fnv64(text.as_bytes()));
+    }
+    st.sample(|| json!({"text": text, "depth": depth}));
+    match cl {
+        "valid-accepted" | "skip-limit-depth" => Ok(()),
+        other => Err(harness_fault(format!("nesting document classified {other}\n{text}"))),
+    }
+}
+
 fn prop_faults(t: &mut Tape, st: &mut Stats) -> Result<(), Failure> {
     let mut cfg = base_cfg(t);
     cfg.allow_bom = false;
@@ -244,7 +329,7 @@ fn prop_mutants(t: &mut Tape, st: &mut Stats) -> Result<(), Failure> {
 
 pub fn run(args: Args) -> ! {
     let mut rep = Report::new("C01", args.tier, args.seed);
-    rep.rule = "four sources: (i) tree-first valid documents in every lexical variant -> must be accepted; (ii) labelled faults (70 invalid line/header shapes in plain, array and inline-table position, duplicated lines, repeated headers, control characters in comments) -> must be rejected; (iii) byte/line/digit-level mutants of generated and corpus documents, judged by the independent reference decoder; (iv) all 562 toml-test fixtures. All four front ends (DocumentMut, ImDocument, toml::from_str::<Table>, toml_edit::de::from_slice) must agree. U1 (BOM, dotted key through header-implicit table) and limit classes are skipped and counted. non-trivial = >= 2 statements (valid) or any mutant/fault; distinct by text".into();
+    rep.rule = "four sources: (i) tree-first valid documents in every lexical variant -> must be accepted, plus documents nested 1..63 deep through any composition of arrays, inline tables, dotted keys and header paths (below the limit: must be accepted); (ii) labelled faults (70 invalid line/header shapes in plain, array and inline-table position, duplicated lines, repeated headers, control characters in comments) -> must be rejected; (iii) byte/line/digit-level mutants of generated and corpus documents, judged by the independent reference decoder; (iv) all 562 toml-test fixtures. All four front ends (DocumentMut, ImDocument, toml::from_str::<Table>, toml_edit::de::from_slice) must agree. U1 (BOM, dotted key through header-implicit table) and limit classes are skipped and counted. non-trivial = >= 2 statements (valid) or any mutant/fault; distinct by text".into();
     rep.assumptions = vec![
         "reference decoder tomlref (calibrated on all 562 fixtures at the start of every run; by-construction labels must agree with it)".into(),
         "texts containing `$__` (reserved serde tunnelling key prefix) are skipped".into(),
@@ -273,9 +358,9 @@ pub fn run(args: Args) -> ! {
         let mut st = Stats::new();
         // direct text / bytes replay bypasses the generator entirely
         let r = if j["raw"] == true {
-            bytes_check(&super::case_bytes(&j).unwrap_or_default(), "replay").map(|_| ())
+            guard(|| bytes_check(&super::case_bytes(&j).unwrap_or_default(), "replay").map(|_| ()))
         } else if let Some(text) = j["case"]["text"].as_str() {
-            differential(text, "replay").map(|_| ())
+            guard(|| differential(text, "replay").map(|_| ()))
         } else {
             let tape = super::replay_tape(&j);
             match j["sub"].as_str().unwrap_or("") {
@@ -304,7 +389,7 @@ pub fn run(args: Args) -> ! {
         rep.stats.eval();
         rep.stats.class("fixture");
         rep.stats.nontrivial(fnv64(&f.bytes));
-        match bytes_check(&f.bytes, "fixture") {
+        match guard(|| bytes_check(&f.bytes, "fixture")) {
             Ok(cl) => {
                 rep.stats.class(cl);
                 let ok = if f.valid { cl == "valid-accepted" } else { matches!(cl, "invalid-rejected" | "non-utf8-rejected" | "skip-limit-int" | "skip-limit-float" | "skip-U1.a-bom") };
@@ -318,6 +403,8 @@ pub fn run(args: Args) -> ! {
     let w = workers();
     let run = run_tape("C01.valid", &prop_valid, 2500, args.tier.pick(100_000, 2_000_000), args.seed, w);
     finish_run(&mut rep, "valid", run);
+    let run = run_tape("C01.nesting", &prop_nesting, 200, args.tier.pick(30_000, 300_000), args.seed, w);
+    finish_run(&mut rep, "nesting", run);
     let run = run_tape("C01.faults", &prop_faults, 2500, args.tier.pick(100_000, 2_000_000), args.seed, w);
     finish_run(&mut rep, "faults", run);
     let run = run_tape("C01.mutants", &prop_mutants, 2500, args.tier.pick(1_000_000, 20_000_000), args.seed, w);
@@ -327,7 +414,7 @@ pub fn run(args: Args) -> ! {
         let seeds: Vec<Vec<u8>> = CORPUS.get().unwrap().iter().filter(|b| b.len() <= 4096).cloned().collect();
         fuzz_campaign(&mut rep, "fuzz_c01", &seeds, 1_500_000, 4096, w);
     }
-    for c in ["valid-accepted", "invalid-rejected", "non-utf8-rejected", "fault.duplicate-key", "fault.repeated-header", "fault.control-in-comment", "fault.leading-zero", "fault.feb-30", "fault.empty-header", "mutant.corpus", "mutant.generated", "str-ml-basic", "str-ml-literal", "int-hex", "dt-offset", "aot-header"] {
+    for c in ["valid-accepted", "invalid-rejected", "non-utf8-rejected", "fault.duplicate-key", "fault.repeated-header", "fault.control-in-comment", "fault.leading-zero", "fault.feb-30", "fault.empty-header", "mutant.corpus", "mutant.generated", "str-ml-basic", "str-ml-literal", "int-hex", "dt-offset", "aot-header", "nesting.valid-accepted", "nesting.accepted-depth>=40", "nesting.after>=60-siblings"] {
         rep.require_class(c);
     }
     rep.finish()
